@@ -319,7 +319,7 @@ func validateModule(c *Chain, name string, raw json.RawMessage) error {
 
 // importChain boots a fresh app from an exported document; the new chain is left after BeginBlock of the
 // block the original chain is currently in (same height, same time).
-func importChain(orig *Chain, appState json.RawMessage, height int64) (c2 *Chain, post postInit, err error) {
+func importChain(orig *Chain, appState json.RawMessage, height int64, rows []delegRow) (c2 *Chain, post postInit, err error) {
 	defer func() {
 		if r := recover(); r != nil {
 			s := fmt.Sprint(r)
@@ -359,6 +359,8 @@ func importChain(orig *Chain, appState json.RawMessage, height int64) (c2 *Chain
 	post.assets = viewAssets(c2, ictx)
 	post.operator = viewOperator(c2, ictx)
 	post.params = viewParams(c2, ictx)
+	post.pools = poolsObs(c2, ictx, rows) // the delegation rows of the ORIGINAL chain, answered by the re-imported one
+	post.queries = genQueries(c2, ictx)
 	post.dumps = map[string][]string{}
 	for _, m := range c18Modules {
 		post.dumps[m] = StoreDumpCtx(c2, ictx, m)
@@ -373,6 +375,8 @@ type postInit struct {
 	assets   assetsView
 	operator operatorView
 	params   paramsView
+	pools    string
+	queries  map[string]string
 	exports  map[string]string
 	dumps    map[string][]string
 }
@@ -433,6 +437,8 @@ type roundTripResult struct {
 	postAssets  assetsView
 	postOp      operatorView
 	postParams  paramsView
+	postPools   string
+	queryDiff   []string // readers that walk the delegation rows: questions the two chains answer differently
 }
 
 // describeKey renders a differing store key of a module for the report: prefix byte + length
@@ -492,11 +498,14 @@ func (w *genWorld) roundTripWith(contBlocks int, directed bool) (res roundTripRe
 			res.validateErr[m] = err.Error()
 		}
 	}
-	c2, post, err := importChain(c, exp.AppState, exp.Height)
+	rows := viewDelegs(c, committedCtx(c))
+	c2, post, err := importChain(c, exp.AppState, exp.Height, rows)
 	if err != nil {
 		res.importErr = err.Error()
 		return
 	}
+	res.postPools = post.pools
+	res.queryDiff = diffQueries(genQueries(c, committedCtx(c)), post.queries, "right after the import")
 	res.c2 = c2
 	res.post = post.view
 	res.postAssets = post.assets
@@ -567,6 +576,9 @@ func (w *genWorld) roundTripWith(contBlocks int, directed bool) (res roundTripRe
 			coreReported = true
 			res.contDiff = append(res.contDiff, fmt.Sprintf("block+%d core state differs: original {%s} reimported {%s}", b, s1, s2))
 		}
+	}
+	if c.Halted == "" && c2.Halted == "" && len(res.queryDiff) == 0 {
+		res.queryDiff = diffQueries(genQueries(c, c.Ctx), genQueries(c2, c2.Ctx), fmt.Sprintf("after %d further blocks on both chains", contBlocks))
 	}
 	if (pend1 > 0 || pend2 > 0) && done1 != done2 {
 		f := func(d int) string {
